@@ -360,24 +360,7 @@ def main(pid, tier, seed):
     if pid == 'C03':
         from . import check_loader
         core.use_repo()
-        lmc, lcfg = check_loader.mc_stage()
-        files = check_loader.export_files(lcfg)
-        work = core.scratch('insert')
-        itraces, imeta = [], {}
-        for i, f in enumerate(files, 1):
-            if not any(x['s'][0][0] != 'M' for x in f):
-                continue
-            itraces.append(check_loader.load_trace(i, f, False, work, kind='insert'))
-            imeta[i] = {'check': 'loader gives every alpha variable its case mask',
-                        'file': [[check_loader.label_text(x['s']), x['w']] for x in f]}
-        iv, ist = core.validate_traces('TrLoader.tla', itraces, chunk=400, timeout=600)
-        for t in itraces:
-            v = iv[t['tid']]
-            if v[0] != 'ACCEPT':
-                m = imeta[t['tid']]
-                verdict.violation(dict(m, clause=v[2], failing=[v[2]], loaded=[x['s'] for x in t['defout']]),
-                                  'clause %s; %s' % (v[2], core.short(m, 260)))
-        ins = {'files_of_Loader_model_space_loaded': len(itraces), 'Loader_model_checking': lmc, 'trace_validation': ist}
+        ins = check_loader.insertion_stage(verdict)
 
     comp = None
     if pid == 'C03':
